@@ -203,6 +203,8 @@ impl State {
 
     fn push_metric(&self, key: &Key, op: MetricOperation) {
         if self.should_send() {
+            #[cfg(metrics_verif)]
+            metrics::__verif::sync_point("tcp.tx.try_send");
             let _ = self.tx.try_send(Event::Metric(key.clone(), op));
             self.wake();
         }
@@ -426,6 +428,8 @@ fn run_transport(
                             break;
                         }
 
+                        #[cfg(metrics_verif)]
+                        metrics::__verif::sync_point("tcp.rx.try_recv");
                         let msg = match rx.try_recv() {
                             Ok(msg) => msg,
                             Err(e) if e.is_empty() => {
